@@ -90,6 +90,9 @@ def run(ctx):
         for k, xa, xb in diff(A, B):
             key = "sibling|%s:%s/%s|%s" % (PR, a, b, k)
             why = allowed("loaders", k)
+            if why is None and k.startswith("guard:") and (k.endswith("-> ['CARQUET_ERROR_OUT_OF_MEMORY']") or (
+                    (xa or xb) and set(map(str, xa or [])) | set(map(str, xb or [])) <= {"CARQUET_ERROR_OUT_OF_MEMORY"})):
+                why = "which allocations a variant makes (and so which allocation-failure exits it has) is an I/O-mode detail"
             what = "mmap and fread variants agree on `%s`" % k
             if why:
                 ctx.suppressed("R9.siblings", key, PR, what, why)
@@ -149,6 +152,39 @@ def run(ctx):
         for fr in frees:
             nfree += 1
             path = find_path_avoiding(fn.cfg, clears, lambda e: e is fr, cut)
+            if path is not None and fn.static:
+                # a helper that releases the buffers: the ownership test (or the reset of a view) may be
+                # its callers' - then every path to each call must pass it
+                from ..rules.whomay import callers_of
+                cs = callers_of(P, fn)
+                if cs:
+                    path = None
+                    for g in cs:
+                        for call in g.calls(fn.name):
+                            def clears_g(e):
+                                if is_assign(e) and e.op == "=":
+                                    l = e.c[0].strip()
+                                    if l.k == "MemberExpr" and l.name == "decoded_values":
+                                        r = e.c[1].strip_casts()
+                                        return r.cv == 0 or (r.k == "CallExpr" and r.callee in ("malloc", "calloc", "realloc"))
+                                return False
+
+                            def cut_g(B, si, g=g):
+                                if B.cond is None:
+                                    return False
+                                t = Canon(g, inline=False)(B.cond)
+                                if t[0] == "bin" and t[1] in ("==", "!=") and any(
+                                        isinstance(x, tuple) and x[0] == "member" and x[2] == "decoded_ownership" for x in (t[2], t[3])):
+                                    const = [x for x in (t[2], t[3]) if x[0] == "int"]
+                                    if not const:
+                                        return False
+                                    owned = const[0][1] == 0
+                                    eq = t[1] == "=="
+                                    return (si == 0) == ((owned and eq) or (not owned and not eq))
+                                return False
+                            pg = find_path_avoiding(g.cfg, clears_g, lambda e: e is call, cut_g)
+                            if pg is not None:
+                                path = pg
             ctx.ob("R2.view", "view-free|%s:%s" % (P.rel(fn.file), fn.name), P.where(fr),
                    "free(decoded_values) is reached only when the buffer is owned (never a mmap view)",
                    path is None, "path: %s" % describe_path(fn, fn.cfg, path) if path else "")
